@@ -56,6 +56,11 @@ def conventional_plus(r, idx):
     tg.field("origin", 4, lkr.fqn).map_field("weights", 5, "string", "int32")
     svc.rpc("TagThing", tg.fqn, lkr.fqn, http=("post", "/v1/{name=things/*}:tag"), body="*", sigs=["name,labels,tags", "name,origin,weights"])
     feats.append("flattened-map-and-repeated")
+    if idx % 2 == 1:
+        # the service declares google.api.api_version: every call also carries the x-goog-api-version header
+        from google.api import client_pb2
+        svc.proto.options.Extensions[client_pb2.api_version] = "v1_20240506"
+        feats.append("api-version")
     if k in (0, 2):
         # required fields of several kinds + reserved-word fields, custom :verb method, deprecated, keyword-named rpc
         req = main.message("CheckThingRequest")
@@ -75,6 +80,10 @@ def conventional_plus(r, idx):
         rp = main.message("RouteThingResponse"); rp.field("ok", 1, "bool")
         svc.rpc("RouteThing", rq.fqn, rp.fqn, http=("post", "/v1/{name=things/*}:route"), body="*",
                 routing=[("name", "{thing_id=things/*}"), ("table", None), ("table", "projects/*/{table_location=instances/*}/tables/*")])
+        # parameters on DIFFERENT fields whose templates also match the empty string (the AIP-4222 {routing_id=**} shape)
+        rq3 = main.message("MoveThingRequest"); rq3.field("name", 1, "string").field("other", 2, "string").field("app_profile_id", 3, "string")
+        svc.rpc("MoveThing", rq3.fqn, rp.fqn, http=("post", "/v1/{name=things/*}:move"), body="*",
+                routing=[("name", "{shelf_id=things/*}"), ("other", "{other=**}"), ("app_profile_id", "{routing_id=**}")])
         feats.append("explicit-routing")
     if k in (1, 3):
         rq = main.message("GetGadgetRequest")
@@ -398,4 +407,22 @@ def run(ctx):
 
 
 def replay(ctx, rep):
-    run(ctx)
+    c = rep.get("case", {})
+    if "api_index" not in c or "options" not in c:
+        return run(ctx)
+    i = c["api_index"]
+    api, deps, feats = conventional_plus(env.rng("C13-api", i), i)
+    req = api.request("", extra_files=deps)
+    svc_full = f"{api.package}.{api.main.proto.service[0].name}"
+    opt = {"params": c["options"], "yaml": c.get("service_yaml"), "retry": "svc" if c.get("retry") else None}
+    res = run_suite((i, 0, req, opt, deps, svc_full))
+    ctx.case({"api": i, "options": opt["params"], "tests": res.get("total", 0)}, nontrivial=True, feature=feats)
+    if "gen_error" in res:
+        ctx.violation(f"generation failed for a conventional API: {res['gen_error']}", res["case"])
+    elif res["rc"] != 0 or res["failed"]:
+        first = res["failed"][:4]
+        ctx.violation(f"emitted tests/unit: {len(res['failed'])} of {res['total']} tests failed (pytest exit {res['rc']}): "
+                      f"{[f['test'] for f in first]} :: {first[0]['msg'] if first else res['tail'][-300:]}",
+                      dict(res["case"], failed=[f["test"] for f in res["failed"][:30]]), signature_of(res["failed"], opt["params"]))
+    ctx.notes["suites_run"] = 1
+    ctx.notes["tests_total"] = res.get("total", 0)
